@@ -123,7 +123,7 @@ func init() {
 		Run: ruleCommitOrder,
 	})
 	register(&Rule{
-		ID: "LOAD-AFTER-LOCK", Props: []string{"C05", "C01"}, Floor: 3,
+		ID: "LOAD-AFTER-LOCK", Props: []string{"C05", "C01", "C07"}, Floor: 3,
 		Doc: "in DB.WriteTxn the root Load that is kept as oldRoot and cloned into tableEntries is dominated by the table-lock acquisition",
 		Run: ruleLoadAfterLock,
 	})
